@@ -228,8 +228,9 @@ def _wordch(c) -> bool:
 
 def word_end_adjacent(d, pieces) -> bool:
     """tag_end_string starts with a word character and some tag name is written directly in front of it:
-    the lexer's greedy `\\w*` name group swallows the delimiter's first character(s) (known finding
-    C11 lex|word-char-tag-end|adjacent-name; regular streams stay outside this zone)."""
+    before the fix the lexer's greedy `\\w*` name group swallowed the delimiter's first character(s)
+    (finding C11 lex|word-char-tag-end|adjacent-name, fixed; the zone is inside the regular streams again and
+    this predicate only names the signature should it come back)."""
     te = d[1]
     if te and te[0] == "#":
         return any(p[0] == "tag" and p[3] == "" and not p[7] and not (p[4] + p[5] + p[6]) for p in pieces)
@@ -276,7 +277,7 @@ def collides(d, pieces) -> bool:
             if any(a <= pos and pos + len(x) <= b for a, b in protected):
                 continue
             return True
-    if word_end_adjacent(d, pieces) or dash_end_adjacent(d, pieces):
+    if dash_end_adjacent(d, pieces):
         return True
     ts = d[0]
     for a, b in protected:
